@@ -32,6 +32,7 @@ type anchorTable struct {
 	// AllFuncs: package path → names of all function declarations of the pinned tree in the packages the rules index; a declared
 	// function whose name is not listed is a helper introduced later and is expanded into its callers (inline.go)
 	AllFuncs map[string][]string `json:"allfuncs"`
+	AllVars  map[string][]string `json:"allvars"` // package path → package-level variables of the pinned tree (tables.go)
 }
 
 var (
@@ -148,6 +149,12 @@ func flushRecordedAnchors() {
 	}
 	for k, v := range recorded.AllFuncs {
 		cur.AllFuncs[k] = v
+	}
+	if cur.AllVars == nil {
+		cur.AllVars = map[string][]string{}
+	}
+	for k, v := range recorded.AllVars {
+		cur.AllVars[k] = v
 	}
 	b, _ := json.MarshalIndent(cur, "", " ")
 	_ = os.WriteFile(path, append(b, '\n'), 0o644)
